@@ -15,7 +15,8 @@ RULE = (
     "lists. Oracles: slices tile the parameter vector in par_order; one init/bound/fixed/name per "
     "component; channel slices tile the main data; nauxdata = sum of constrained components in "
     "auxdata_order; poi_index; every override verbatim and documented defaults otherwise (independent "
-    "parameter table); Workspace.data layout; Workspace.build round trip (config, data, likelihood); "
+    "parameter table) and in the constraint terms (constraint_logpdf / expected_auxdata off nominal against "
+    "the reference terms); Workspace.data layout; Workspace.build round trip (config, data, likelihood); "
     "deep equality of the caller's spec before/after; config and log-density identical under the "
     "permutation. Non-trivial: listing order != sorted order, >=1 override, a bin-wise set before a "
     "scalar one in par_order; distinct by (shape signature, override keys, measurement)."
